@@ -97,6 +97,10 @@ func GetAllSporks(context db.DB) []*Spork {
 			common.DealWithErr(iterator.Error())
 			break
 		}
+		// deleted entries (e.g. a spork creation which was rolled back) show up with an empty value
+		if len(iterator.Value()) == 0 {
+			continue
+		}
 		spork := parseSporkInfo(iterator.Value())
 		sporks = append(sporks, spork)
 	}
